@@ -82,6 +82,26 @@ fn header_name(l: &str) -> Option<&str> {
     }
 }
 
+/// one of the numeric literals of the line, chosen by `pick` (a long ;-separated record is not always hit in its first field)
+fn some_number(line: &str, pick: usize) -> Option<(usize, usize)> {
+    let mut spans = vec![];
+    let mut from = 0;
+    while from < line.len() {
+        match first_number(&line[from..]) {
+            Some((a, b)) => {
+                spans.push((from + a, from + b));
+                from += b.max(a + 1);
+            }
+            None => break,
+        }
+    }
+    if spans.is_empty() {
+        None
+    } else {
+        Some(spans[pick % spans.len()])
+    }
+}
+
 /// first numeric literal on the line that is not part of an identifier: (start, end)
 fn first_number(line: &str) -> Option<(usize, usize)> {
     let b = line.as_bytes();
@@ -158,7 +178,7 @@ pub fn damage(lines: &[String], line: usize, kind: usize, crlf: bool) -> Option<
         }
         4..=7 => {
             let l = &lines[line];
-            let (a, b) = first_number(l)?;
+            let (a, b) = some_number(l, line + kind)?;
             let rep = ["abc", "1e39", "-1", "999999"][kind - 4];
             owned = format!("{}{}{}", &l[..a], rep, &l[b..]);
             out.extend(lines[..line].iter().map(|s| s.as_str()));
@@ -386,7 +406,16 @@ impl Property for C19 {
             let n = lines.len();
             // the system sections are short next to the BDL text: give them half of the visits
             let first_sys = lines.iter().position(|l| l.contains("<Definicion_Sistema")).unwrap_or(n);
-            let line = if first_sys < n && rng.chance(0.5) { first_sys + rng.usize(n - first_sys) } else { rng.usize(n.max(1)) };
+            // ... and the production / ventilation records of <DatosGenerales> a share of their own
+            let records: Vec<usize> = lines.iter().enumerate().filter(|(_, l)| l.contains("<valoresMensuales") || l.contains("<datosVentilacion") || l.contains("<valMen")).map(|(i, _)| i).collect();
+            let line = if !records.is_empty() && rng.chance(0.12) {
+                obs.count("generated_general_data_record_lines_visited");
+                records[rng.usize(records.len())]
+            } else if first_sys < n && rng.chance(0.5) {
+                first_sys + rng.usize(n - first_sys)
+            } else {
+                rng.usize(n.max(1))
+            };
             generated = (PathBuf::from(format!("generated-project-{}.ctehexml", prng.below(1_000_000))), FileKind::Ctehexml, lines);
             obs.count("generated_lines_visited");
             if line >= first_sys {
